@@ -28,6 +28,11 @@ def compare_state(st, proj, cfg, coarse=False):
     if coarse:
         # identity-level comparison (after measurements: finite homodyne squeezing eps, renormalised Fock trace)
         tol = (1e-5 if cfg in ("gaussian", "bosonic") else 5e-2) * scale
+        if cfg not in ("gaussian", "bosonic"):
+            delta = max(0.0, 1.0 - proj["trace"])
+            if delta > 1e-3:
+                return "inconclusive", max(dmu, dV), "trace deficit %.3g" % delta
+            tol = max(tol, 2 * proj["D"] * math.sqrt(delta) + 1e-6)
         if dmu <= tol and dV <= tol:
             return "ok", max(dmu, dV), ""
         return "bad", max(dmu, dV), "dmu=%.3g dV=%.3g tol=%.3g" % (dmu, dV, tol)
